@@ -272,7 +272,7 @@ def stage_checks(in_path, out_path, workers, only=None):
             done[(r["file"], r["line"], r["op"], r["col"])] = r
     q = queue.Queue()
     # uniform shifts of the indices that only name hoisted bindings are almost always equivalent: try them last
-    surv.sort(key=lambda m: (m["op"] in ("bidx+1", "eidx+1", "idx+1"), m["id"]))
+    surv.sort(key=lambda m: (m["op"] in ("bidx+1", "eidx+1", "idx+1", "swaplines"), m["id"]))
     for m in surv:
         if (m["file"], m["line"], m["op"], m["col"]) not in done:
             q.put(m)
